@@ -183,6 +183,18 @@ func (e *Engine) get(fr *frame, v ssa.Value) Value {
 }
 
 func (e *Engine) constValue(c *ssa.Const) Value {
+	if v, ok := e.constCache[c]; ok {
+		return v
+	}
+	v := e.constValue1(c)
+	switch v.(type) {
+	case *term.Term, StrV:
+		e.constCache[c] = v // immutable values only
+	}
+	return v
+}
+
+func (e *Engine) constValue1(c *ssa.Const) Value {
 	t := c.Type()
 	if c.Value == nil {
 		return zero(t)
